@@ -195,7 +195,7 @@ class Pattern:
     def __abs__(self):
         return Pattern(
             self.label,
-            r"\A" + self.pattern + r"\Z",
+            r"\A(?:" + self.pattern + r")\Z",
             flags=self._flags,
             value=self.value,
         )
